@@ -1,7 +1,7 @@
 (* C01 — the passes after construct_volume_t4: renumber_surfaces and
    remove_unused_volumes keep the denotation of every surviving volume, and
    remove_unused_volumes deletes only unreferenced FICTIVE volumes.
-   (remove_empty_volumes is tied and swept, not proved: see notes/C01.md.) *)
+   (remove_empty_volumes: ProofsEmpty.v; the composition: ProofsWritten.v.) *)
 From Coq Require Import List ZArith Bool Lia.
 From T4V Require Import C01.Model C01.Spec C01.ProofsTree C01.ProofsT4.
 Import ListNotations.
